@@ -97,6 +97,16 @@ CHECKS = {
         "the marker designate a single candidate offset; pe.find_mz_offset is cut to None for files < 88 bytes, justified by lemma "
         "obligations discharged in the same run.",
         ref="§4 C09"),
+    "C14": dict(
+        text="For an HTTPS configuration family with symbolic transform arguments and User-Agent bytes and enumerated server-output "
+        "programs: after every operation of every ordered pair (quick) / triple (thorough, selected) over {the four settings views, "
+        "C2Http with AES+HMAC keys / AES random / RSA private key, profile generation, client dry run, get and response "
+        "transform+recover} the deep snapshot of all views, settings_tuple, config_block and metadata attributes is proved unchanged and "
+        "the operation's observable result is proved equal to its result on a freshly parsed configuration; item assignment/deletion on "
+        "the mappings raises TypeError. Object identity and aliasing are the real ones (the interpreter runs on real Python containers).",
+        note="Trusted: z3; symx; SHA-256/AES/HMAC uninterpreted; RSA key import real (concrete DER); random nondeterministic; "
+        "lark Tree real / tokens with symbolic text. Longer histories follow by induction from state preservation (stated).",
+        ref="§4 C14"),
 }
 
 NA = {}
